@@ -165,7 +165,7 @@ def with_epilogue(scripts):
 
 
 def run(ctx):
-    mon = lambda tr, sc: SC.mon_sanity(tr) + mon_requests(tr, sc) + SC.mon_unordered_ids(tr)
+    mon = lambda tr, sc: SC.mon_sanity(tr) + mon_requests(tr, sc) + SC.mon_unordered_ids(tr) + SC.mon_slots(tr)
     from .sessgen import Gen
     g = Gen(ctx.rng, PROFILE, (8, 30))
     n = 300 if ctx.quick() else 5000
